@@ -265,3 +265,46 @@ Proof.
   intros. unfold run_init, init_training. change (is_fitted0 model_init) with false. cbv iota.
   change (is_tf0 model_init) with (Z.of_nat 0). apply run_init_model.
 Qed.
+
+(* ---------- the restart of the hyper-parameters (noise coordinate) ---------- *)
+From Coq Require Import QArith.
+Open Scope Q_scope.
+
+Lemma src_restart_is_model : src_restart = model_restart.
+Proof. reflexivity. Qed.
+
+Theorem restart_is_source :
+  src_restart = model_restart /\
+  forall (s : option Q) (old nn n0 lb : Q), run_restart src_restart s old nn n0 lb = restart_spec s old nn n0 lb.
+Proof.
+  rewrite src_restart_is_model. split; [reflexivity |].
+  intros s old nn n0 lb. destruct s; reflexivity.
+Qed.
+
+(* after f consecutive failures: noise_nudge has grown LINEARLY (f * n0), the lower bound of the noise — raised each time by the
+   accumulated nudge on top of the already raised bound — by the TRIANGULAR number f (f + 1) / 2 * n0 *)
+Lemma restart_closed_form : forall ss old n0 f nn lb,
+    fst (restart_iter model_restart ss old n0 f nn lb) == nn + inject_Z (Z.of_nat f) * n0 /\
+    (2 # 1) * (snd (restart_iter model_restart ss old n0 f nn lb) - lb)
+    == (2 # 1) * inject_Z (Z.of_nat f) * nn + inject_Z (Z.of_nat f) * (inject_Z (Z.of_nat f) + 1) * n0.
+Proof.
+  intros ss old n0 f nn lb. induction f as [| f IH].
+  - cbn [restart_iter fst snd Z.of_nat]. change (inject_Z 0) with 0. split; ring.
+  - cbn [restart_iter].
+    destruct (restart_iter model_restart ss old n0 f nn lb) as [nn1 lb1]. cbn [fst snd] in IH. destruct IH as [H1 H2].
+    assert (Hs : inject_Z (Z.of_nat (S f)) == inject_Z (Z.of_nat f) + 1).
+    { rewrite Nat2Z.inj_succ. unfold Z.succ. rewrite inject_Z_plus. reflexivity. }
+    unfold run_restart, model_restart.
+    cbn [rr_nn rr_lb rr_noise rr_avg_some rr_avg_none qeval e_nn e_n0 e_lb e_new e_old fst snd].
+    split.
+    + rewrite Hs, H1. ring.
+    + assert (E : (2 # 1) * (lb1 + (nn1 + n0) - lb) == (2 # 1) * (lb1 - lb) + (2 # 1) * (nn1 + n0)) by ring.
+      rewrite E, H2, H1, Hs. ring.
+Qed.
+
+Theorem restart_accumulates :
+  forall (ss : nat -> option Q) (old n0 : Q) (f : nat) (nn lb : Q),
+    fst (restart_iter src_restart ss old n0 f nn lb) == nn + inject_Z (Z.of_nat f) * n0 /\
+    (2 # 1) * (snd (restart_iter src_restart ss old n0 f nn lb) - lb)
+    == (2 # 1) * inject_Z (Z.of_nat f) * nn + inject_Z (Z.of_nat f) * (inject_Z (Z.of_nat f) + 1) * n0.
+Proof. rewrite src_restart_is_model. exact restart_closed_form. Qed.
